@@ -109,6 +109,7 @@ func runC08(c C08Case) (v *Violation, f c08Features, discard string) {
 	defer cleanup()
 	s := app.NewSession(app.NewShared(c.App), c.Mode, storage)
 	var waiting []byte // pending bytecode of a session that is waiting for input
+	firstSeen := 0
 	for i, in := range c.Inputs {
 		st := s.Request([]byte(in))
 		f.requests++
@@ -126,7 +127,7 @@ func runC08(c C08Case) (v *Violation, f c08Features, discard string) {
 		if st.Exceeded {
 			return nil, f, "move-budget"
 		}
-		if st.Panic != "" && strings.HasPrefix(st.Panic, "down into same node") {
+		if st.Panic != "" && strings.HasPrefix(st.Panic, "down into same node") && !strings.Contains(st.Panic, "'_first'") {
 			// the documented precondition "no node moves to itself", violated dynamically:
 			// pending code of one node executed a move to the node that is current. The
 			// generator avoids the static shapes; what remains is outside the domain.
@@ -172,7 +173,14 @@ func runC08(c C08Case) (v *Violation, f c08Features, discard string) {
 				return bad, f, ""
 			}
 			if !st.Cont && st.ExecErr == "" {
-				break // Exec after cont=false is documented as undefined for one engine
+				// Exec after cont=false is documented as undefined for one engine — unless the
+				// request never got past the first function (refused or failed there): nothing
+				// has ended, the engine is simply asked again
+				if c.App.Cfg.First != nil && len(s.FirstSeen) > firstSeen && len(st.Calls) == 0 {
+					firstSeen = len(s.FirstSeen)
+					continue
+				}
+				break
 			}
 		}
 	}
